@@ -55,6 +55,11 @@ def case_strategy(draw, tier):
     for _ in range(draw(st.integers(1, 2))):
         d = draw(st.dictionaries(st.sampled_from(ids), st.sampled_from([1, 1, 2, 2, 3, -1, -2, -3]), min_size=draw(st.integers(0, 1)), max_size=4))
         prios.append([list(kv) for kv in sorted(d.items())])
+    if draw(st.integers(0, 5)) == 0:
+        # priority levels taken from time stamps / packed counters: huge and close together, still distinct levels
+        base = draw(st.sampled_from([2 ** 53, 1_760_000_000_000_000_000, 2 ** 60]))
+        prios = [[[k, (base + abs(v) * draw(st.integers(1, 3))) * (1 if v > 0 else -1)] for k, v in pr] for pr in prios]
+        return {"model": spec, "prios": prios, "huge_levels": True}
     return {"model": spec, "prios": prios}
 
 
@@ -147,7 +152,7 @@ def check(case, ev):
     # a second request on the SAME configurator with the same keys but other levels/signs: the objective must follow the
     # dictionary of that request, not an earlier one
     remap = {1: -2, 2: 3, 3: 1, -1: 2, -2: -1, -3: -3}
-    prios2 = [{k: remap[v] for k, v in pr.items()} for pr in prios1]
+    prios2 = [{k: remap.get(v, -v) for k, v in pr.items()} for pr in prios1]
     nontrivial = False
     feas = None
     for round_no, prios in enumerate([prios1, prios2]):
